@@ -569,12 +569,12 @@ class AModel(Model):
         return False
 
 
-def run_method(repo, ci, name, unroll=1, exc=True, max_depth=7, params=None, facts=None):
+def run_method(repo, ci, name, unroll=1, exc=True, max_depth=7, params=None, facts=None, comp_unroll=1):
     model = AModel(repo, ci, exc=exc)
     fi, owner = model.find_method(name)
     if fi is None:
         return None, None, None
-    eng = Engine(model, unroll=unroll, comp_unroll=1, max_depth=max_depth, max_paths=60000)
+    eng = Engine(model, unroll=unroll, comp_unroll=comp_unroll, max_depth=max_depth, max_paths=400000)
     eng.collapse_pure = True
     a = fi.node.args
     p = {a.args[0].arg: SELF}
